@@ -470,6 +470,12 @@ pub struct FamCfg {
     pub weights: bool,
     /// heteroscedastic noise with weights = k / sigma_i (C19)
     pub calibrated_weights: bool,
+    /// also generate family 4 (rate + damped cosine sharing the rate + offset; not certified for C05)
+    pub extra_families: bool,
+    /// a quarter of the weighted instances get weights spanning 1e-3..1e3
+    pub wide_weights: bool,
+    /// largest number of decays in family 1
+    pub max_decays: usize,
 }
 
 pub fn family_from_raw(cfg: FamCfg, us: &[u16], seed: u64) -> FamCase {
@@ -479,11 +485,11 @@ pub fn family_from_raw(cfg: FamCfg, us: &[u16], seed: u64) -> FamCase {
         cur += 1;
         v
     };
-    let family = 1 + (u() * 3.0) as u8;
+    let family = 1 + (u() * if cfg.extra_families { 4.0 } else { 3.0 }) as u8;
     let n = cfg.min_n + (u() * (cfg.max_n - cfg.min_n + 1) as f64) as usize;
     let (spec, alpha_true, x): (ModelSpec, Vec<f64>, Vec<f64>) = match family {
         1 => {
-            let k = 1 + (u() * 3.0) as usize;
+            let k = (1 + (u() * 3.0) as usize).min(cfg.max_decays.max(1));
             let offset = u() < 0.5;
             let mut taus = vec![0.5 + 1.5 * u()];
             for _ in 1..k {
@@ -506,6 +512,13 @@ pub fn family_from_raw(cfg: FamCfg, us: &[u16], seed: u64) -> FamCase {
             let terms = vec![Term { kind: Kind::Gauss, args: vec![0, 1] }, Term { kind: Kind::Exp, args: vec![2] }, Term { kind: Kind::One, args: vec![] }];
             let x = (0..n).map(|i| 10.0 * i as f64 / (n - 1) as f64).collect();
             (ModelSpec { p: 3, terms }, vec![mu, sg, tau], x)
+        }
+        4 => {
+            let k = 0.2 + 0.6 * u();
+            let b = 1.0 + 2.0 * u();
+            let terms = vec![Term { kind: Kind::Rate, args: vec![0] }, Term { kind: Kind::DampedCos, args: vec![0, 1] }, Term { kind: Kind::One, args: vec![] }];
+            let x = (0..n).map(|i| 10.0 * i as f64 / (n - 1) as f64).collect();
+            (ModelSpec { p: 2, terms }, vec![k, b], x)
         }
         _ => {
             let tau = 0.5 + 4.5 * u();
@@ -555,7 +568,8 @@ pub fn family_from_raw(cfg: FamCfg, us: &[u16], seed: u64) -> FamCase {
             case.sigma = vec![level; n];
         }
         if cfg.weights && u() < 0.5 {
-            case.w = Some((0..n).map(|_| 10f64.powf(u() - 0.5)).collect());
+            let span = if cfg.wide_weights && u() < 0.25 { 6.0 } else { 1.0 };
+            case.w = Some((0..n).map(|_| 10f64.powf(span * (u() - 0.5))).collect());
         }
     }
     case
